@@ -1694,6 +1694,14 @@ func (x *Decimal) BitsExp() ([]Word, int32) {
 func (z *Decimal) SetBitsExp(mant []Word, exp int64) *Decimal {
 	z.mant = dec(mant).norm()
 	z.neg = false
+	if z.prec == 0 {
+		// like SetInt: enough precision for the digits present
+		digits := int64(len(z.mant)) * _DW
+		if digits > MaxPrec {
+			digits = MaxPrec
+		}
+		z.prec = umax32(uint32(digits), DefaultDecimalPrec)
+	}
 	if len(z.mant) > 0 {
 		z.setExpAndRound(clampExp(exp)-dnorm(z.mant)-int64(len(mant)-len(z.mant))*_DW, 0)
 	} else {
